@@ -606,6 +606,42 @@ def c09(tr, cx):
             else:
                 rem[0].remove(dest)
                 if not rem[0]: rem.pop(0)
+    # frequencies: with enough decisions of one probabilistic router (or class-change row) the observed counts stay within 6 sigma
+    # of n*p for every destination (the statement forbids zero-probability moves; a grossly mis-weighted choice is the same defect)
+    def freq_test(label, counts, probs):
+        n_ = sum(counts.values())
+        if n_ < 60: return
+        tr.count('C09.frequency_tests')
+        for k_, p_ in probs.items():
+            if p_ <= 0 or p_ >= 1: continue
+            z = (counts.get(k_, 0) - n_ * p_) / (n_ * p_ * (1 - p_)) ** 0.5
+            if abs(z) > 6.0:
+                tr.v('C09', 'choice_frequency_far_from_probability', (label, k_, counts.get(k_, 0), n_, p_, round(z, 1))); return
+    rc = collections.defaultdict(collections.Counter); cc = collections.defaultdict(collections.Counter)
+    for e in tr.events:
+        if e[0] == 'route':
+            rc[(e[4], e[2])][e[5]] += 1
+            if spec['ccm']: cc[(e[2], e[8])][e[4]] += 1
+    def aggregate(counts, ordered):
+        # sums that the check merges over all runs: per position j in the router's own list, sum(indicator - p) and sum p(1-p)
+        n_ = sum(counts.values())
+        for j, (k_, p_) in enumerate(ordered[:6]):
+            if p_ <= 0 or p_ >= 1: continue
+            tr.counters['C09.agg.S%d' % j] = tr.counters.get('C09.agg.S%d' % j, 0.0) + counts.get(k_, 0) - n_ * p_
+            tr.counters['C09.agg.V%d' % j] = tr.counters.get('C09.agg.V%d' % j, 0.0) + n_ * p_ * (1 - p_)
+    for (cls, nid), counts in rc.items():
+        r = spec['routing'][cls]
+        if r['r'] == 'tm':
+            row = r['M'][nid - 1]; probs = {j + 1: row[j] for j in range(n)}; probs[-1] = 1 - sum(row)
+            freq_test(('tm', cls, nid), counts, probs)
+            aggregate(counts, [(j + 1, row[j]) for j in range(n)] + [(-1, 1 - sum(row))])
+        elif r['r'] == 'nr' and r['routers'][nid - 1]['k'] == 'prob':
+            q = r['routers'][nid - 1]; probs = dict(zip(q['dests'], q['probs'])); probs[-1] = 1 - sum(q['probs'])
+            freq_test(('prob', cls, nid), counts, probs)
+            aggregate(counts, list(zip(q['dests'], q['probs'])) + [(-1, 1 - sum(q['probs']))])
+    if spec['ccm']:
+        for (nid, prev), counts in cc.items():
+            freq_test(('class_change', nid, prev), counts, dict(spec['ccm'][nid - 1][prev]))
     for (cls, nid), seq in cyc.items():
         cy = spec['routing'][cls]['routers'][nid - 1]['cycle']
         L = len(cy)
